@@ -100,16 +100,34 @@ def crashes(execs):
     """executions whose process died abnormally (signal, sanitizer report, unexpected exit code)"""
     bad = []
     for e in execs:
-        ok_rc = (0, 1) if e.variant == 'exit' else (0,)
+        ok_rc = getattr(e, 'ok_rc', (0, 1) if e.variant == 'exit' else (0,))
         if e.rc not in ok_rc:
             bad.append(('process ended abnormally rc=%s %s: %s' % (e.rc, e.label, (e.err or '')[-600:].replace('\n', ' | ')), e))
     return bad
 
 
 # ================================================================================================
-def run_trace_check(pid, tier_, execs, relax, oracle=False, level='exploration', rule='', assumptions=(), mc=None, extra_cov=None, batch_lines=4000):
+SUITE_RULE = (' Thorough tier additionally: the repository\'s own test and example programs, UNMODIFIED, linked against the freshly built '
+              'library through the tracing shim (GNU ld --wrap on every public entry point), every public call logged and the log validated '
+              'by the same trace specification (evaluations thinned logarithmically).')
+
+
+def with_suite(execs, tier_, sols=None):
+    """thorough tier: add the traces of the repository's own programs (those that initialise one of sols; all if None)"""
+    if tier_ != 'thorough' or os.environ.get('VERIF_NO_SUITE'):
+        return list(execs), 0
+    import suite
+    sx, skipped = suite.suite_executions(sols, seed_=seed())
+    return list(execs) + sx, len(sx)
+
+
+def run_trace_check(pid, tier_, execs, relax, oracle=False, level='exploration', rule='', assumptions=(), mc=None, extra_cov=None, batch_lines=4000, suite=False):
     t0 = time.time()
     wd = workdir(pid)
+    nsuite = 0
+    if suite:
+        execs, nsuite = with_suite(execs, tier_)
+        rule += SUITE_RULE
     run_executions(execs, wd)
     env = None
     if oracle:   # evaluators with a recorded known deviation are judged against their variant (as in the value checks)
@@ -117,10 +135,13 @@ def run_trace_check(pid, tier_, execs, relax, oracle=False, level='exploration',
         json.dump([[k['match']['sol'], k['match']['fn']] for k in KNOWN if k.get('status') == 'known' and 'sol' in k.get('match', {})], open(kf, 'w'))
         env = {'KNOWN': kf}
     nlines, rej = validate_executions(execs, wd, relax=relax, oracle=oracle, batch_lines=batch_lines, extra_env=env)
+    REPLAY_CTX.clear(); REPLAY_CTX.update(relax=list(relax), oracle=oracle, known=json.load(open(env['KNOWN'])) if env else None)
     nviol = report(pid, rej, crashes(execs))
     cov = dict(evaluations=sum(len(e.events) for e in execs), distinct_nontrivial=distinct_nontrivial(execs),
                rule=rule, samples=sample_of(execs), traces_validated_against_impl=len(execs),
                trace_lines_accepted=nlines, rejections=len(rej))
+    if nsuite:
+        cov['repository_programs_traced'] = nsuite
     if mc:
         cov.update(mc)
     if extra_cov:
@@ -137,10 +158,13 @@ COMMON_ASSUME = ['the driver (harness/driver.cpp) reports arguments, return valu
 def c12(tier_):
     rng = random.Random(seed())
     t0 = time.time()
-    cfgs = [replay.mc_cfg(('d',), ('h1', 'h2'))]
+    # quick: the reduced alphabet (MC_Registry!Lite) on the multi-handle / two-precision instances; the full alphabet
+    # is replayed on the 1-handle instance by C11 and here in the thorough tier
+    lite = tier_ == 'quick'
+    cfgs = [replay.mc_cfg(('d',), ('h1', 'h2'), lite=lite)]
     if tier_ == 'thorough':
-        cfgs.append(replay.mc_cfg(('d',), ('h1', 'h2', 'h3')))
-    cfgs.append(replay.mc_cfg(('d', 'ld'), ('h1',)))
+        cfgs.append(replay.mc_cfg(('d',), ('h1', 'h2', 'h3'), lite=True))
+    cfgs.append(replay.mc_cfg(('d', 'ld'), ('h1',), lite=lite))
     execs, st, tr, uniq = [], 0, 0, 0
     apij = mk.api_json('exc')['cxx']
     for cfg in cfgs:
@@ -151,7 +175,7 @@ def c12(tier_):
         st += s; tr += t; uniq += nu
     for _ in range(20 if tier_ == 'quick' else 200):
         execs.append(gen.gen_registry_random(rng, steps=120 if tier_ == 'quick' else 300))
-    return run_trace_check('C12', tier_, execs, relax=('live', 'memo'), level='model_checking',
+    return run_trace_check('C12', tier_, execs, suite=True, relax=('live', 'memo'), level='model_checking',
         rule='every transition of the bounded registry model (2 handles; 2 precisions x 1 handle; thorough: 3 handles) replayed on the real library with a concretisation drawn by seed, plus random long histories over 4 similar handles and both precisions; distinct = distinct (call, arguments) shapes executed',
         assumptions=COMMON_ASSUME, mc=dict(states=st, transitions=tr, distinct_transitions_replayed=uniq, exhaustive=True))
 
@@ -166,7 +190,7 @@ def c11(tier_):
         cx = replay.Concrete(rng, apij)
         execs += replay.build_executions(edges, walks, cx, 'exc', sweep_every=25, rng=rng)
     reps = 1 if tier_ == 'quick' else 12
-    for sol in NONFIX:
+    for sol in [e['name'] for e in CATALOG]:          # the two self-test fixtures included (failing init_var, Masa!InitParam)
         for p in ('d', 'ld'):
             for _ in range(reps):
                 execs.append(gen.gen_param_store(rng, sol, p, steps=60 if tier_ == 'quick' else 150))
@@ -176,8 +200,8 @@ def c11(tier_):
     # evaluated again at the same points -- judged by the numeric oracle
     for sol in ALLVAL:
         execs.append(gen.gen_values(rng, sol, nassign=2 if tier_ == 'quick' else 6, npts=1))
-    return run_trace_check('C11', tier_, execs, relax=('live', 'memo'), oracle=True, level='model_checking',
-        rule='(a) every transition of the 1-handle bounded model (all set/get/init_param/purge/sanity/set_vec/get_vec/display steps with valid and invalid names, marker values, vectors of length 0..2) replayed on the real library; (b) seeded random parameter-store histories on every non-fixture catalogue entry in both precisions (arbitrary finite values incl. the exact marker, invalid names, vectors of length 0..8); every read-back is compared with the specification map by TLC; (c) on every solution with an oracle every parameter is set, evaluators are called, parameters are set again and the evaluators called at the same points, judged by the numeric oracle (evaluators use the values last set). distinct = distinct (call, arguments) shapes',
+    return run_trace_check('C11', tier_, execs, suite=True, relax=('live', 'memo'), oracle=True, level='model_checking',
+        rule='(a) every transition of the 1-handle bounded model (all set/get/init_param/purge/sanity/set_vec/get_vec/display steps with valid and invalid names, marker values, vectors of length 0..2) replayed on the real library; (b) seeded random parameter-store histories on every catalogue entry (the two self-test fixtures with their failing init_var included) in both precisions (arbitrary finite values incl. the exact marker, invalid names, vectors of length 0..8); every read-back is compared with the specification map by TLC; (c) on every solution with an oracle every parameter is set, evaluators are called, parameters are set again and the evaluators called at the same points, judged by the numeric oracle (evaluators use the values last set). distinct = distinct (call, arguments) shapes',
         assumptions=COMMON_ASSUME + ['values are either exactly the marker or not within 1e-6 relative of it (the 1e-10 window of sanity_check is not observable)'],
         mc=dict(states=s, transitions=t, distinct_transitions_replayed=nu, exhaustive=True, model_actions=replay.action_counts(edges)))
 
@@ -190,7 +214,7 @@ def c10(tier_):
         for _ in range(2 if tier_ == 'quick' else 10):
             grp += 1
             execs += gen.gen_purity_pair(rng, sol, grp, nev=6 if tier_ == 'quick' else 20, noise=20 if tier_ == 'quick' else 60)
-    return run_trace_check('C10', tier_, execs, relax=('live',), level='exploration',
+    return run_trace_check('C10', tier_, execs, suite=True, relax=('live',), level='exploration',
         rule='per non-fixture solution a pair of processes sharing the specification memo: parameters P set, EVERY provided evaluator (plus random extra points) evaluated; unrelated calls (other evaluators and arities, points, handles, the other precision, further inits); some parameters changed (P to P2; for sod_1d only mu), the same evaluations at the same points, parameters restored and the evaluations repeated shuffled; a fresh handle given P2 directly; the twin process runs the phases in reverse order. Masa!Eval memo demands bit-identical results for identical (precision, solution, parameters, overload, arguments) across all of it, and the sweeps demand unchanged parameters. distinct = distinct (call, arguments) shapes',
         assumptions=COMMON_ASSUME)
 
@@ -198,7 +222,7 @@ def c10(tier_):
 def c15(tier_):
     rng = random.Random(seed())
     execs = [gen.gen_sentinel(rng, e['name'], per=2 if tier_ == 'quick' else 8) for e in CATALOG]
-    return run_trace_check('C15', tier_, execs, relax=('live', 'memo'), level='exploration',
+    return run_trace_check('C15', tier_, execs, suite=True, relax=('live', 'memo'), level='exploration',
         rule='every (catalogue entry, public C++ evaluator overload from masa.h.in) pair outside the entry capability set, at random arguments (per pair: 2 quick / 8 thorough), both precisions, with parameter sweeps before and after; Masa!Eval demands exactly -1.33, an ERROR tag, a normal return and unchanged state. distinct = distinct (call, arguments) shapes',
         assumptions=COMMON_ASSUME, extra_cov=dict(exhaustive_over_pairs=True))
 
@@ -214,7 +238,7 @@ def c14(tier_):
             names.append(n)
     shutil.rmtree(wd, ignore_errors=True)
     execs = gen.gen_catalogue(names)
-    return run_trace_check('C14', tier_, execs, relax=('live', 'memo'), level='model_checking',
+    return run_trace_check('C14', tier_, execs, suite=True, relax=('live', 'memo'), level='model_checking',
         rule='finite and complete: every name printed by masa_printid in either precision and every entry of the frozen catalogue: printid (order, uniqueness, both precisions equal), init, get_name, dimension, sanity_check, init_param, and every evaluator of the capability set at an interior point with default parameters (each gradient direction), both precisions. distinct = distinct (call, arguments) shapes',
         assumptions=COMMON_ASSUME, mc=dict(states=len(names), transitions=sum(len(e.script) for e in execs), exhaustive=True))
 
@@ -231,13 +255,14 @@ def c16(tier_):
     execs += replay.build_executions(edges, walks, cx, 'exit', sweep_every=0, rng=rng)
     st += s; tr += t; uniq += nu
     # exception build: the walk continues after every caught failure, with a full sweep right after it
-    for cfg in ([replay.mc_cfg(('d',), ('h1', 'h2')), replay.mc_cfg(('d', 'ld'), ('h1',))]):
+    lite = tier_ == 'quick'
+    for cfg in ([replay.mc_cfg(('d',), ('h1', 'h2'), lite=lite), replay.mc_cfg(('d', 'ld'), ('h1',), lite=lite)]):
         s, t, edges, _ = replay.explore(cfg, 'exc')
         walks, nu = replay.cover_walks(edges)
         cx = replay.Concrete(rng, apij)
         execs += replay.build_executions(edges, walks, cx, 'exc', sweep_every=40, rng=rng, sweep_after_fatal=0.25)
         st += s; tr += t; uniq += nu
-    return run_trace_check('C16', tier_, execs, relax=('live', 'memo'), level='model_checking',
+    return run_trace_check('C16', tier_, execs, suite=True, relax=('live', 'memo'), level='model_checking',
         rule='every transition of the bounded model in the exit() build (each fatal transition in its own process: exit status, diagnostics and the absence of any later effect are observed) and in the exception build (caught int, then sweeps, then the walk continues in the same process). distinct = distinct (call, arguments) shapes',
         assumptions=COMMON_ASSUME, mc=dict(states=st, transitions=tr, distinct_transitions_replayed=uniq, exhaustive=True),
         extra_cov=lambda ex: dict(fatal_events_observed=sum(1 for e in ex for ev in e.events if 'FATAL' in ev.get('tags', []))))
@@ -258,7 +283,7 @@ def c17(tier_):
             execs.append(gen.gen_param_store(rng, sol, 'd', apis=('cxx', 'c'), steps=40))
     execs.append(gen.gen_c_entry_points(rng))
     execs += [gen.gen_registry_random(rng, steps=100, apis=('cxx', 'c')) for _ in range(4 if tier_ == 'quick' else 30)]
-    return run_trace_check('C17', tier_, execs, relax=('live',), level='model_checking',
+    return run_trace_check('C17', tier_, execs, suite=True, relax=('live',), level='model_checking',
         rule='the C entry points are the same actions of Masa.tla with p = d: every transition of the bounded model replayed with each double-precision call issued through the C symbol or the C++ <double> template at random; per solution purity histories and parameter-store histories with mixed C/C++ calls (memo: identical key => bit-identical value across the two interfaces; masa_get_name buffer; statuses; arrays of length 0..8); one sweep over all C evaluator symbols defined in cmasa.cpp. distinct = distinct (call, arguments) shapes',
         assumptions=COMMON_ASSUME, mc=dict(states=s, transitions=t, distinct_transitions_replayed=nu, exhaustive=True),
         extra_cov=lambda ex: dict(c_calls=sum(1 for e in ex for ev in e.events if ev.get('api') == 'c'), distinct_c_entry_points=len(set((ev.get('op'), ev.get('fn'), ev.get('sig'), (ev.get('f') or [None])[-1] if ev.get('op') == 'eval' else None) for e in ex for ev in e.events if ev.get('api') == 'c'))))
@@ -274,7 +299,7 @@ GRADSOLS = ['euler_1d', 'euler_2d', 'euler_3d', 'navierstokes_2d_compressible', 
 ALLVAL = HEAT + EULER + NS + ['laplace_2d', 'burgers_equation', 'rans_sa', 'fans_sa_transient_free_shear', 'fans_sa_steady_wall_bounded', 'euler_chem_1d', 'sod_1d', 'cp_normal', 'radiation_integrated_intensity']
 VAL_ASSUME = COMMON_ASSUME + [
     'spec/MasaReal.java implements the real arithmetic of MasaReal.tla (45 digits); cross-checked by MC_Oracle',
-    'admissible inputs: parameters drawn independently as exact doubles in the boxes of checks/gen.py (rho, p, T, nu_sa > 0; L != 0; Gamma > 1; sod mu = (Gamma-1)/(Gamma+1); euler_chem R_N2 = R_N/2; points in a bounded box, r > 0, Sod points 1e-3 away from wave fronts)',
+    'admissible inputs: parameters drawn independently as exact doubles in the boxes of checks/gen.py (rho, p, T, nu_sa > 0; L != 0; Gamma > 1; sod mu = (Gamma-1)/(Gamma+1); points in a bounded box, r > 0, Sod points 1e-3 away from wave fronts)',
     'tolerance |got - exact| <= 2^K u_p mag with mag the sum of absolute values of the terms of the governing operator (MasaReal.tla); K = 14 (identity), K = 5 (C09 accuracy)']
 
 
@@ -303,6 +328,10 @@ def value_check(pid, tier_, plan, kbits=14, rule='', extra_execs=(), all_known=F
     execs += list(extra_execs)
     # the library's own default parameters (the inputs of every test and example of the repository)
     execs += [gen.gen_default_values(rng, sol, npts=max(2, npt), evaluators=evs) for sol, evs, na, npt in plan]
+    # thorough: the repository's own programs that use these solutions, traced through the shim, judged by the same oracle
+    execs, nsuite = with_suite(execs, tier_, [p[0] for p in plan])
+    if nsuite:
+        rule += SUITE_RULE
     wd = workdir(pid)
     run_executions(execs, wd)
     kn = [k for k in KNOWN if k.get('status') == 'known' and 'sol' in k.get('match', {}) and (all_known or k.get('property') == pid)]
@@ -331,6 +360,7 @@ def value_check(pid, tier_, plan, kbits=14, rule='', extra_execs=(), all_known=F
         else:
             print('note: accuracy statistic of %s %s exceeded its screening threshold on %d samples but not on the confirmation sample; not reported' % (k['sol'], k['fn'], 10))
     rej = confirmed
+    REPLAY_CTX.clear(); REPLAY_CTX.update(relax=['live', 'memo'], oracle=True, known=keys, kbits=kbits)
     nviol = report(pid, rej, crashes(execs))
     # known findings of this property: confirm each still reproduces against the property's own operator
     for k in kn:
@@ -352,6 +382,8 @@ def value_check(pid, tier_, plan, kbits=14, rule='', extra_execs=(), all_known=F
                rule=rule + ' distinct_nontrivial = distinct (solution, precision, evaluator, point, direction) tuples evaluated with a non-default random parameter assignment and judged by the oracle',
                samples=sample_of(execs, n=2, maxlines=8), traces_validated_against_impl=len(execs), trace_lines_accepted=nlines,
                rejections=len(rej), solutions=sorted(set(p[0] for p in plan)), tolerance_bits=kbits, known_deviations_tolerated=keys)
+    if nsuite:
+        cov['repository_programs_traced'] = nsuite
     write_evidence(pid, tier_, 'exploration', cov, VAL_ASSUME, time.time() - t0, nviol)
     shutil.rmtree(wd, ignore_errors=True)
     return 1 if nviol else 0
@@ -531,6 +563,7 @@ def c19(tier_):
         vg = rng.sample(base, min(12, len(base))) + base[-1:]
     t0 = time.time()
     wd = workdir('C19')
+    execs, nsuite = with_suite(execs, tier_)      # thorough: the repository's own programs, hook counter bound to the specification heap
     run_executions(execs, wd)
     extra = crashes(execs)
     for e in execs:
